@@ -43,6 +43,53 @@ var armTypes = map[string]struct {
 	"uint": {"uint", 64}, "HitGroup": {"hit", 64},
 }
 
+// armFallsThrough: every statement is `it = <expr>` / `it <op>= <expr>`, or an if/else (without init) whose blocks are such.
+func armFallsThrough(list []ast.Stmt) bool {
+	for _, st := range list {
+		switch x := st.(type) {
+		case *ast.AssignStmt:
+			if len(x.Lhs) != 1 || x.Tok.String() == ":=" {
+				return false
+			}
+			if id, ok := x.Lhs[0].(*ast.Ident); !ok || id.Name != "it" {
+				return false
+			}
+			bad := false
+			for _, rhs := range x.Rhs {
+				ast.Inspect(rhs, func(n ast.Node) bool {
+					if _, isLit := n.(*ast.FuncLit); isLit {
+						bad = true
+					}
+					return true
+				})
+			}
+			if bad {
+				return false
+			}
+		case *ast.IfStmt:
+			if x.Init != nil || !armFallsThrough(x.Body.List) {
+				return false
+			}
+			switch e := x.Else.(type) {
+			case nil:
+			case *ast.BlockStmt:
+				if !armFallsThrough(e.List) {
+					return false
+				}
+			case *ast.IfStmt:
+				if !armFallsThrough([]ast.Stmt{e}) {
+					return false
+				}
+			default:
+				return false
+			}
+		default:
+			return false
+		}
+	}
+	return true
+}
+
 func unReceiver(s string) string { return strings.ReplaceAll(s, "r.numbs", "numbs") }
 
 func extract(repo, leanDir string) {
@@ -174,6 +221,15 @@ func extract(repo, leanDir string) {
 						arms = append(arms, "other")
 						continue
 					}
+					// The arm is lifted into `func arm_T(v T) uint64 { var it uint64; <arm>; return it }`. That is faithful only if
+					// the arm falls through to the code after the switch: it may assign to `it` (also under if/else) and nothing
+					// else — a `return`, `panic`, `goto`, `break`, `fallthrough`, a call statement, a write to anything but `it`
+					// would mean something else inside the kernel than inside SimpleIndex. Such an arm is unclassified.
+					if !armFallsThrough(cc.Body) {
+						arms = append(arms, "other")
+						notes = append(notes, "SimpleIndex arm "+tn+": a statement other than an assignment to `it`")
+						continue
+					}
 					arms = append(arms, at.kt)
 					var body []string
 					for _, st := range cc.Body {
@@ -285,6 +341,33 @@ func extract(repo, leanDir string) {
 			}
 		}
 		containers = note(ok, "container:"+c.file) && containers
+	}
+
+	// ---- cache/map.go: the shard type of WideMap and the unsharded map — every function by whole canonical text
+	{
+		mf := gofacts.MustLoad(repo, "cache/map.go")
+		got := map[string]string{}
+		for _, d := range mf.AST.Decls {
+			if fd, ok := d.(*ast.FuncDecl); ok {
+				nm := fd.Name.Name
+				if fd.Recv != nil {
+					nm = "." + nm
+				}
+				got[nm] = mf.Canon(fd)
+			}
+		}
+		okMap := true
+		for nm, want := range mapShapes {
+			if got[nm] != want {
+				okMap = note(false, "cache/map.go:"+strings.TrimPrefix(nm, ".")+": unclassified body")
+			}
+		}
+		for nm := range got {
+			if _, known := mapShapes[nm]; !known {
+				okMap = note(false, "cache/map.go:"+strings.TrimPrefix(nm, ".")+": function the model does not know")
+			}
+		}
+		containers = okMap && containers
 	}
 
 	// ---- kernels
